@@ -174,3 +174,22 @@ def lock(rng):
 def pair(rng):
     lk, info = lock(rng)
     return [witness(rng, info), lk]
+
+
+def sigfields(rng, must=(), cap=900):
+    """a sigfield set over ALL eight fields (each present with probability
+    1/2, sigfield8 more often), contents 0..120 bytes, total below the item
+    limit; `must` lists fields that have to be present and non-empty."""
+    out = {}
+    for k in range(1, 9):
+        if rng.random() < (0.7 if k == 8 else 0.5):
+            out[f'sigfield{k}'] = rbytes(rng, rng.choice((0, 1, 8, 32, 120)))
+    for k in must:
+        if not out.get(f'sigfield{k}'):
+            out[f'sigfield{k}'] = rbytes(rng, rng.choice((1, 12, 40)))
+    if not any(out.values()):
+        out['sigfield8'] = b'only-field-8'
+    while sum(map(len, out.values())) > cap:
+        k = max(out, key=lambda x: len(out[x]))
+        out[k] = out[k][:len(out[k]) // 2]
+    return out
